@@ -78,6 +78,9 @@ JEq(a, b) == /\ a.k = b.k
                   [] a.k = "str" -> a.s = b.s
                   [] a.k = "arr" -> Len(a.a) = Len(b.a) /\ \A i \in DOMAIN a.a : JEq(a.a[i], b.a[i])
                   [] a.k = "obj" -> DOMAIN a.f = DOMAIN b.f /\ \A key \in DOMAIN a.f : JEq(a.f[key], b.f[key])
+                  \* [k |-> "deep", n]: an object nested n levels deep, written in short (TLC's JSON reader stops at 255
+                  \* levels); it only ever stands where a value is ignored, the harness expands it for the implementation
+                  [] a.k = "deep" -> a.n = b.n
                   [] OTHER -> FALSE
 
 StringBases == {"string", "DocumentUri", "URI", "RegExp", "Uri"}
